@@ -25,13 +25,13 @@ def run(chk):
     common.conformance_canary(chk)       # a deviant model (one incref forgotten) must be told apart from the code
     shards += common.stage_graph(
         chk, 'MC_Core2', 'MC_Core2.cfg' if q else 'MC_Core2_deep.cfg',
-        ['a', 'b'], 2, limit=1500 if q else None, need_actions=CORE_ACTIONS)
+        ['a', 'b'], 2, limit=chk.th(1500, 12000), need_actions=CORE_ACTIONS)
     shards += common.stage_graph(
         chk, 'MC_Core3', 'MC_Core3.cfg' if q else 'MC_Core3_deep.cfg',
-        ['a', 'b', 'c'], 3, limit=1500 if q else 60000,
+        ['a', 'b', 'c'], 3, limit=chk.th(1500, 60000),
         need_actions=CORE_ACTIONS)
     hs = common.stage_histories(
-        chk, ntraces=96 if q else 4000, steps=150 if q else 300,
+        chk, ntraces=chk.th(96, 4000), steps=chk.th(150, 300),
         nvars_choices=[2, 3, 4, 5])
     shards += hs
     chk.validate('TraceBDD', 'TraceBDD.cfg', shards)
